@@ -527,6 +527,12 @@ def _calls(repo, rep):
     L.borrow(repo, rep, "R09.2", "C01", c01.order,
              ("order:define-slot><define>",))
     L.borrow(repo, rep, "R09.3", "C18", c18._tables, ("declare-first",))
+    # a macro removed from (or renamed in) a template is gone from
+    # template.macros once the template is compiled again: the entry points
+    # of the previous version are retired (C16 owns the rule)
+    from . import c16
+    L.borrow(repo, rep, "R09.3", "C16", c16._retire,
+             ("retire-filter", "stale-entry-points"), minimum=2)
     # define-macro: stored, and rendered in place through an internal use
     eff = [it for it, c in tr if isinstance(it, A.Effect)
            and it.kind == "setitem" and it.target == "self._macros"]
